@@ -32,6 +32,7 @@ OTHER = {NP: PD, PD: NP}
 RULE = "R1"
 
 ENTRY = ("fit", "transform", "fit_transform", "predict", "predict_proba", "inverse_transform")
+APPLY = ("transform", "predict", "predict_proba", "inverse_transform")
 
 ANCHOR_DIRS = ("sktime/transformations/panel/", "sktime/transformations/panel/dictionary_based/")
 ANCHOR_FILES = (
@@ -103,6 +104,9 @@ class Summary:
         self.ret = None  # frozenset of containers of the returned panel, or None
         self.returns = True  # a normal return is reachable
         self.used = False  # the tracked value was used at all
+        self.viol4 = []  # (key, what, loc): instance-independence findings (R4), reported for apply-type entry points
+        self.batch_names = set()  # locals that hold the whole batch (panel / per-instance rows) somewhere
+        self.reach_assign = {}  # local name -> ids of reachable statements that (re)bind it
         self.retdim = None  # frozenset of dimension values returned (R3), None = unknown
         self.stores = {}  # self attribute -> frozenset of dimension values stored (None = not a known dimension)
 
@@ -122,6 +126,9 @@ class Analyzer:
         self.check_X_y = repo.func(PANEL_VALIDATION, "check_X_y")
         self.panel_module = pm
         self._fninfo = {}
+        dp = "sktime/utils/data_processing.py"
+        self.rows_helpers = {id(repo.func(dp, "from_nested_to_2d_array")): (PD,),
+                             id(repo.func(dp, "from_3d_numpy_to_2d_array")): (NP,)}
 
     # ------------------------------------------------------------------ resolution
     def lookup(self, cls, name, after=None):
@@ -280,6 +287,30 @@ class _FnRun:
                 rets.append(self.eval_value(n.stmt.value, env))
             if n.kind == "stmt" and isinstance(n.stmt, ast.Assign):
                 self.record_stores(n.stmt, env)
+            for nm, st0 in env.items():
+                if any(c in (NP, PD) or c == ("rows",) for c in st0):
+                    self.out.batch_names.add(nm)
+            if n.kind == "stmt" and isinstance(n.stmt, (ast.Assign, ast.AugAssign, ast.AnnAssign)):
+                tg = n.stmt.targets if isinstance(n.stmt, ast.Assign) else [n.stmt.target]
+                for t in tg:
+                    for x in ast.walk(t):
+                        if isinstance(x, ast.Name) and isinstance(x.ctx, ast.Store):
+                            self.out.reach_assign.setdefault(x.id, set()).add((n.stmt.lineno, n.stmt.col_offset))
+            if n.kind == "loop" and isinstance(n.stmt, ast.For) and self.instance_iter(n.stmt.iter, env):
+                loop = n.stmt
+                if any(isinstance(x, (ast.Break, ast.Continue)) for b in loop.body for x in astq.walk_no_nested(b)
+                       if not _inside_inner_loop(loop, x)):
+                    continue
+                car = sorted(carried_names(loop.body, _target_names(loop.target)) - _pure_counters(loop.body))
+                ordinal = sorted((x.lineno, x.col_offset) for x in astq.walk_no_nested(self.fn)
+                                 if isinstance(x, ast.For)).index((loop.lineno, loop.col_offset)) + 1
+                if car:
+                    self.viol4_at("instance-loop#%d:state" % ordinal,
+                                  "local(s) %s keep their value from the previous instance when the next one is processed in the "
+                                  "per-instance loop of %s: output row i depends on the rows before it" % (
+                                      ", ".join(car), qualname(self.fn, self.defcls)), self.loc(loop))
+                else:
+                    self.out.viol4.append(("ok:instance-loop#%d" % ordinal, "", self.loc(loop)))
         self.out.returns = IN[g.exit.id] is not None
         ret = set()
         dims, dims_known = set(), bool(rets)
@@ -515,6 +546,44 @@ class _FnRun:
                 return None
             return next(iter(s))
 
+        ROWS = ("rows",)
+        # --- values whose first axis is still the instance axis ("rows")
+        if isinstance(e, ast.Subscript) and isinstance(e.value, ast.Name) and one(e.value.id) == PD \
+                and not isinstance(e.slice, (ast.Slice, ast.Tuple)):
+            return _fs(ROWS)  # column(s) of a nested frame: one cell per instance
+        if isinstance(e, ast.Subscript) and isinstance(e.value, ast.Attribute) and e.value.attr == "iloc" \
+                and isinstance(e.value.value, ast.Name) and one(e.value.value.id) == PD and isinstance(e.slice, ast.Tuple) \
+                and len(e.slice.elts) == 2 and isinstance(e.slice.elts[0], ast.Slice) and e.slice.elts[0].lower is None \
+                and e.slice.elts[0].upper is None and e.slice.elts[0].step is None:
+            return _fs(ROWS)
+        if isinstance(e, ast.Subscript) and isinstance(e.value, ast.Attribute) and e.value.attr == "shape" \
+                and isinstance(e.value.value, ast.Name) and one(e.value.value.id) == ROWS and _const_int(e.slice) == 0:
+            return _fs(("dim", "instances"))
+        if isinstance(e, (ast.ListComp,)) and len(e.generators) == 1 and not e.generators[0].ifs \
+                and self.instance_iter(e.generators[0].iter, env):
+            return _fs(ROWS)
+        if isinstance(e, ast.Call):
+            f0 = e.func
+            if isinstance(f0, ast.Attribute) and f0.attr == "squeeze" and isinstance(f0.value, ast.Name) \
+                    and one(f0.value.id) == NP and len(e.args) == 1 and _const_int(e.args[0]) == 1:
+                return _fs(ROWS)
+            r0 = self.resolve(e)
+            if r0[0] == "repo" and id(r0[1]) in self.an.rows_helpers and e.args:
+                a0 = self.eval_value(e.args[0], env)
+                if a0 and len(a0) == 1 and (next(iter(a0)) in self.an.rows_helpers[id(r0[1])] or next(iter(a0)) == ROWS):
+                    return _fs(ROWS)
+            if r0[0] == "ext" and r0[1] == "pandas.DataFrame" and len(e.args) == 1 and not e.keywords:
+                a0 = self.eval_value(e.args[0], env)
+                if a0 == _fs(ROWS):
+                    return a0
+            if r0[0] == "ext" and r0[1] == "numpy.reshape" and len(e.args) == 2 and isinstance(e.args[0], ast.Name) \
+                    and one(e.args[0].id) == NP and isinstance(e.args[1], (ast.Tuple, ast.List)) and e.args[1].elts \
+                    and self.eval_value(e.args[1].elts[0], env) == _fs(("dim", "instances")):
+                return _fs(ROWS)
+            if r0[0] == "ext" and r0[1] == "builtins.len" and len(e.args) == 1 and isinstance(e.args[0], ast.Name) \
+                    and one(e.args[0].id) == ROWS:
+                return _fs(("dim", "instances"))
+
         if isinstance(e, ast.Subscript) and isinstance(e.value, ast.Attribute) and isinstance(e.value.value, ast.Name):
             a, base = e.value.attr, one(e.value.value.id)
             if a == "shape" and base is not None:
@@ -569,6 +638,49 @@ class _FnRun:
                         out |= set(sm.retdim)
                     return frozenset(out) or None
         return None
+
+    def instance_iter(self, it, env):
+        """Does iterating ``it`` visit the instances of the batch one by one?"""
+        v = self.eval_value(it, env) if not isinstance(it, ast.Call) else None
+        if v is not None and (v == _fs(("rows",)) or v == _fs(NP)):
+            return True
+        if isinstance(it, ast.Call):
+            r = self.resolve(it)
+            if r[0] == "ext" and r[1] == "builtins.range" and not it.keywords and 1 <= len(it.args) <= 2:
+                if len(it.args) == 2 and _const_int(it.args[0]) != 0:
+                    return False
+                return self.eval_value(it.args[-1], env) == _fs(("dim", "instances"))
+            if r[0] == "ext" and r[1] in ("builtins.enumerate", "builtins.zip") and it.args:
+                return any(self.instance_iter(a, env) for a in it.args)
+            v = self.eval_value(it, env)
+            return v is not None and v == _fs(("rows",))
+        return False
+
+    def dcall(self, call, env):
+        """A repo callee that receives derived batch values (rows / cells / dimensions) but not the panel name itself."""
+        r = self.resolve(call)
+        if r[0] != "repo":
+            return
+        _, fn, module, cls, defcls, skip_self, rcall = r
+        if id(fn) in self.an.rows_helpers:
+            return
+        tracked = self.tracked_args(fn, rcall, skip_self, env)
+        if not tracked:
+            return
+        qn = qualname(fn, defcls if fn.name not in self.local_defs else None)
+        for bind in _singletons(tracked):
+            sm = self.an.summary(fn, module, cls, defcls, bind, self.depth + 1)
+            for k, what, loc in sm.viol:
+                self.viol_at("%s>%s" % (qn, k), "%s (reached through %s)" % (what, qn), loc)
+            for k, why, loc in sm.und:
+                self.und_at("%s>%s" % (qn, k), why, loc)
+            for k, what, loc in sm.viol4:
+                self.viol4_at("%s>%s" % (qn, k), "%s (reached through %s)" % (what, qn), loc)
+
+    def viol4_at(self, key, what, loc):
+        if self.collect and ("4", key) not in self._seen:
+            self._seen.add(("4", key))
+            self.out.viol4.append((key, what, loc))
 
     def flags(self, b, call):
         out = []
@@ -739,6 +851,11 @@ class _FnRun:
                 return
             for ch in ast.iter_child_nodes(n):
                 visit(ch)
+            if isinstance(n, ast.Call) and self.collect:
+                direct = [a for a in list(n.args) + [k.value for k in n.keywords] if isinstance(a, ast.Name) and a.id in env
+                          and any(c in (NP, PD) for c in env[a.id])]
+                if not direct:
+                    self.dcall(n, env)
 
         visit(expr)
 
@@ -953,6 +1070,8 @@ class _FnRun:
                     self.viol_at("%s>%s" % (qn, k), "%s (reached through %s)" % (what, qn), loc)
                 for k, why, loc in sm.und:
                     self.und_at("%s>%s" % (qn, k), why, loc)
+                for k, what, loc in sm.viol4:
+                    self.viol4_at("%s>%s" % (qn, k), "%s (reached through %s)" % (what, qn), loc)
                 if not sm.returns and len(bind) == 1 and all(x in (NP, PD) for s0 in bind.values() for x in s0):
                     (p, s), = bind.items()
                     (c,) = tuple(s)
@@ -1019,6 +1138,106 @@ class _FnRun:
         return False
 
 
+def _const_int(e):
+    if isinstance(e, ast.Constant) and isinstance(e.value, int) and not isinstance(e.value, bool):
+        return e.value
+    if isinstance(e, ast.UnaryOp) and isinstance(e.op, ast.USub) and isinstance(e.operand, ast.Constant):
+        return -e.operand.value
+    return None
+
+
+def _inside_inner_loop(loop, x):
+    for st in loop.body:
+        for inner in astq.walk_no_nested(st):
+            if isinstance(inner, (ast.For, ast.While)) and any(y is x for y in ast.walk(inner)):
+                return True
+    return False
+
+
+def _pure_counters(body):
+    """Names that the loop body only ever changes by `name += <constant>`: position counters, independent of the data."""
+    binds = {}
+    for st in body:
+        for x in astq.walk_no_nested(st):
+            if isinstance(x, ast.AugAssign) and isinstance(x.target, ast.Name):
+                ok = isinstance(x.op, (ast.Add, ast.Sub)) and isinstance(x.value, ast.Constant)
+                binds.setdefault(x.target.id, []).append(ok)
+            elif isinstance(x, ast.Name) and isinstance(x.ctx, ast.Store):
+                par_aug = False
+                binds.setdefault(x.id, []).append(None)
+    out = set()
+    for nm, kinds in binds.items():
+        real = [k for k in kinds if k is not None]
+        # an AugAssign target also shows up as a Store name: one None per AugAssign
+        if real and all(real) and kinds.count(None) == len(real):
+            out.add(nm)
+    return out
+
+
+class _BodyFn:
+    """Minimal FunctionDef stand-in so that a loop body can be given to CFG."""
+    def __init__(self, body):
+        self.body = body
+
+
+_CARRIED = {}
+
+
+def _rw(node):
+    """(names read, names bound) at a CFG node."""
+    reads, writes = set(), set()
+    st = node.stmt
+    for e in node.exprs:
+        if e is None:
+            continue
+        scoped = set()
+        for x in ast.walk(e):
+            if isinstance(x, ast.comprehension):
+                scoped |= set(_target_names(x.target))
+            elif isinstance(x, ast.Lambda):
+                scoped |= {a.arg for a in x.args.args}
+        for x in ast.walk(e):
+            if isinstance(x, ast.Name) and x.id not in scoped:
+                (reads if isinstance(x.ctx, ast.Load) else writes).add(x.id)
+    if isinstance(st, ast.AugAssign) and isinstance(st.target, ast.Name):
+        reads.add(st.target.id)
+        writes.add(st.target.id)
+    if node.kind == "loop" and isinstance(st, ast.For):
+        writes |= set(_target_names(st.target))
+    if node.kind == "with":
+        for it in st.items:
+            if it.optional_vars is not None:
+                writes |= set(_target_names(it.optional_vars))
+    if isinstance(st, (ast.FunctionDef, ast.AsyncFunctionDef, ast.ClassDef)):
+        writes.add(st.name)
+    return reads, writes
+
+
+def carried_names(body, bound=()):
+    """Locals whose value can flow from one iteration of a loop body into the next: bound in the body and read on some
+    path before being bound in the same iteration."""
+    from ..cfg import CFG
+    key = id(body)
+    if key in _CARRIED and _CARRIED[key][0] is body:
+        return _CARRIED[key][1]
+    g = CFG(_BodyFn(body))
+    rw = {n.id: _rw(n) for n in g.nodes}
+    assigned = set()
+    for r, w in rw.values():
+        assigned |= w
+    reach = g.reachable()
+    out = set()
+    for name in assigned - set(bound):
+        IN, _ = g.forward_must(lambda n: name in rw[n.id][1])
+        for n in g.nodes:
+            if n.id in reach and name in rw[n.id][0] and not IN[n.id]:
+                # an augmented assignment of a name defined earlier in the same iteration is fine (IN true); here it is not
+                out.add(name)
+                break
+    _CARRIED[key] = (body, out)
+    return out
+
+
 def _target_names(t):
     out = []
     for n in ast.walk(t):
@@ -1081,7 +1300,11 @@ def run(ctx):
                 "are never stored into a frame that carries another frame's row labels as a fresh-RangeIndex Series (pandas "
                 "label alignment). R3: every axis length / index the dataflow can name (shape[k], len, cell length, RangeIndex "
                 "of them, through helpers) that an entry point stores on self denotes the same axis (instances / columns / "
-                "time) under both input containers. Equivariance / batch-vs-single equality as relations between runs "
+                "time) under both input containers. R4 instance independence of apply-type entry points (structural): no local is "
+                "carried from one iteration of a per-instance loop to the next (pure position counters excepted), no min/max/sum "
+                "reduction over the batch reaches the output (rejecting guards may use it), no list on self that feeds the output "
+                "is appended to without being re-created in the call. R5: check_X / check_X_y rebind every argument other than X "
+                "by the same statements for both containers. Equivariance / batch-vs-single equality as relations between runs "
                 "(e.g. shared random state across a batch, numeric window arithmetic) are not decided.")
     ctx.assume("a numpy.ndarray has none of the pandas-only attributes of the table and a DataFrame none of the "
                "numpy-only ones; DataFrame[tuple] / DataFrame.shape[2] fail; DataFrame.squeeze(1) is not the 2-d panel")
@@ -1101,6 +1324,7 @@ def run(ctx):
     an = Analyzer(repo)
     n_entry = 0
     seen_dims = set()
+    seen_apply = set()
     for cls in anchored_classes(repo):
         for mname in ENTRY:
             hit = an.lookup(cls, mname)
@@ -1148,6 +1372,24 @@ def run(ctx):
                     else:
                         detail += "every use of the panel matches its container on every path"
                     ctx.ok(RULE, construct, detail, loc, nontrivial=sm.used)
+            # R4: instance independence of apply-type entry points
+            if mname in APPLY:
+                reported = set()
+                for c in (NP, PD):
+                    for k, what, l in sums[c].viol4:
+                        if k in reported:
+                            continue
+                        reported.add(k)
+                        if k.split(">")[-1].startswith("ok:"):
+                            ctx.ok("R4", "%s:%s" % (construct0, k.replace("ok:", "")), "no local carries a value from one instance "
+                                   "to the next", l)
+                        else:
+                            ctx.violation("R4", "%s:%s" % (construct0, k), what, l)
+                if (defcls.name, mname) not in seen_apply:
+                    seen_apply.add((defcls.name, mname))
+                    names = sums[NP].batch_names | sums[PD].batch_names
+                    batch_aggregates(ctx, repo, an, cls, defcls, fn, construct0, names)
+                    self_accumulators(ctx, an, defcls, fn, construct0)
             # R3: a fitted dimension must denote the same axis of the panel for both containers
             for attr in sorted(set(sums[NP].stores) & set(sums[PD].stores)):
                 a, b = sums[NP].stores[attr], sums[PD].stores[attr]
@@ -1164,6 +1406,9 @@ def run(ctx):
     ctx.count("entry_points", n_entry)
     ctx.floor(RULE, 252)  # 126 resolved (class, entry point) pairs x 2 input containers
     label_alignment(ctx, repo)
+    validators(ctx, repo, an)
+    ctx.floor("R4", 30)
+    ctx.floor("R5", 2)
 
 
 
@@ -1317,3 +1562,175 @@ def _may_be_series(fn, arg, ext, self_method=None):
     if isinstance(arg, ast.Attribute) and isinstance(arg.value, ast.Name) and arg.value.id == "self":
         return False
     return True
+
+
+
+# -------------------------------------------------------------------------------------------------- R4 (b), (c)
+REDUCERS = {"builtins.min", "builtins.max", "builtins.sum", "numpy.min", "numpy.max", "numpy.amin", "numpy.amax", "numpy.sum",
+            "numpy.mean", "numpy.median", "numpy.std", "numpy.var", "numpy.nanmin", "numpy.nanmax", "numpy.nanmean"}
+
+
+def _reduces_param(repo, module, fn, depth=0):
+    """Parameters of ``fn`` that every return value reduces with min / max / sum (possibly through a nested helper)."""
+    params = astq.all_param_names(fn)
+    rets = astq.returns(fn)
+    if not rets or depth > 2:
+        return set()
+    out = None
+    for r in rets:
+        v = r.value
+        hit = set()
+        if isinstance(v, ast.Call) and isinstance(v.func, ast.Name) and v.func.id in ("min", "max", "sum") \
+                and not astq.assigned_in(fn, v.func.id):
+            hit = {x.id for a in v.args for x in ast.walk(a) if isinstance(x, ast.Name) and x.id in params}
+        out = hit if out is None else (out & hit)
+    return out or set()
+
+
+def batch_aggregates(ctx, repo, an, cls, defcls, fn, construct0, batch_names):
+    """An apply-type method must not let a min / max / sum taken over the instances of the batch reach its output
+    (rejecting guards may use it): the row of one instance would depend on which other instances share the batch."""
+    module = defcls.module
+    stored = {x.id for x in astq.walk_no_nested(fn) if isinstance(x, ast.Name) and isinstance(x.ctx, ast.Store)}
+    stored |= set(astq.all_param_names(fn))
+
+    def ext(e):
+        dd = dotted(e)
+        if not dd or dd.split(".")[0] in stored:
+            return None
+        sym = repo.resolve_dotted(module, dd)
+        if sym is not None:
+            return sym.dotted
+        return "builtins." + dd if dd in BUILTINS else None
+
+    def mentions(e, names):
+        return any(isinstance(x, ast.Name) and x.id in names for x in ast.walk(e))
+
+    def is_aggregate(c):
+        if not isinstance(c, ast.Call):
+            return False
+        ex = ext(c.func)
+        if ex in REDUCERS:
+            ax = None
+            for k in c.keywords:
+                if k.arg == "axis":
+                    ax = k.value
+            if len(c.args) > 1 and ex.startswith("numpy."):
+                ax = c.args[1]
+            if ax is not None and not (isinstance(ax, ast.Constant) and ax.value in (0, None)):
+                return False
+            return bool(c.args) and isinstance(c.args[0], ast.Name) and c.args[0].id in batch_names
+        # repo helper reducing the batch it is given
+        target = None
+        f = c.func
+        if isinstance(f, ast.Attribute) and isinstance(f.value, ast.Name) and f.value.id == "self":
+            hit = an.lookup(cls, f.attr)
+            if hit is not None and hit[0] == "repo":
+                target = (hit[2], not hit[1].is_static(f.attr))
+        elif isinstance(f, ast.Name) and f.id not in stored:
+            sym = repo.resolve_name(module, f.id)
+            if sym is not None and sym.kind == "func":
+                target = (sym.target, False)
+        if target is None:
+            return False
+        b = astq.bind_call(target[0], c, skip_self=target[1])
+        red = _reduces_param(repo, module, target[0])
+        return bool(b) and any(isinstance(v, ast.Name) and v.id in batch_names for p, v in b.items()
+                               if p in red and isinstance(v, ast.AST))
+
+    assigns = [a for a in astq.walk_no_nested(fn) if isinstance(a, ast.Assign)]
+    tainted = set()
+    sources = {}
+    changed = True
+    while changed:
+        changed = False
+        for a in assigns:
+            src = any(is_aggregate(c) for c in astq.calls(a.value)) or mentions(a.value, tainted)
+            if src:
+                for t in a.targets:
+                    if isinstance(t, ast.Name) and t.id not in tainted:
+                        tainted.add(t.id)
+                        sources[t.id] = a
+                        changed = True
+    if not tainted:
+        return
+    loc = ctx.loc(module, fn)
+    construct = "%s:batch-aggregate" % construct0
+    bad = None
+    for n in astq.walk_no_nested(fn):
+        if isinstance(n, ast.Return) and n.value is not None and mentions(n.value, tainted):
+            bad = n
+        elif isinstance(n, ast.Assign) and mentions(n.value, tainted) and any(
+                isinstance(t, (ast.Attribute, ast.Subscript)) for t in n.targets):
+            bad = n
+    roots = sorted(nm for nm, a in sources.items() if any(is_aggregate(c) for c in astq.calls(a.value)))
+    if bad is not None:
+        ctx.violation("R4", construct, "%s is a reduction over all instances of the batch and reaches the output (%s): the row of an "
+                      "instance depends on the other instances passed with it (batch output != single-instance output); use the "
+                      "fitted state instead" % (", ".join(roots), astq.canon(bad.value)[:60]), ctx.loc(module, bad),
+                      witness={"input": "the same instance alone vs. together with a shorter / longer one"})
+    else:
+        ctx.ok("R4", construct, "batch reductions (%s) are only used in rejecting guards" % ", ".join(roots), loc)
+
+
+def self_accumulators(ctx, an, defcls, fn, construct0):
+    """An apply-type method must not append to a list on self that it does not reset first when that list feeds its output:
+    rows of earlier calls would stay in it."""
+    from ..cfg import CFG
+    module = defcls.module
+    muts = {}
+    for n in astq.walk_no_nested(fn):
+        if isinstance(n, ast.Call) and isinstance(n.func, ast.Attribute) and n.func.attr in ("append", "extend", "insert") \
+                and astq.is_self_attr(n.func.value):
+            muts.setdefault(n.func.value.attr, []).append(n)
+        elif isinstance(n, ast.AugAssign) and astq.is_self_attr(n.target):
+            muts.setdefault(n.target.attr, []).append(n)
+    if not muts:
+        return
+    g = an.flow.cfg(fn)
+    for attr, sites in sorted(muts.items()):
+        receivers = {id(c.func.value) for c in sites if isinstance(c, ast.Call)} | {id(c.target) for c in sites if isinstance(c, ast.AugAssign)}
+        reads = [x for x in astq.walk_no_nested(fn) if astq.is_self_attr(x, "self", attr) and isinstance(x.ctx, ast.Load)
+                 and id(x) not in receivers]
+        IN, _ = g.forward_must(lambda nd: isinstance(nd.stmt, ast.Assign) and any(astq.is_self_attr(t, "self", attr)
+                                                                                   for t in nd.stmt.targets))
+        fresh = all((g.node_of(c) is not None and IN.get(g.node_of(c).id, False)) for c in sites)
+        construct = "%s:self.%s" % (construct0, attr)
+        loc = ctx.loc(module, sites[0])
+        if fresh:
+            ctx.ok("R4", construct, "self.%s is re-created in the call before it collects per-instance results" % attr, loc)
+        elif reads:
+            ctx.violation("R4", construct, "self.%s collects per-instance results and feeds the output, but it is not re-created in "
+                          "this call before the first append: rows of earlier calls stay in it (the number of output rows differs "
+                          "from the number of input rows on the second call)" % attr, loc,
+                          witness={"history": "transform(X); transform(X)"})
+        else:
+            ctx.ok("R4", construct, "self.%s accumulates across calls but does not feed the output of this method" % attr, loc,
+                   nontrivial=False)
+
+
+# -------------------------------------------------------------------------------------------------- R5
+def validators(ctx, repo, an):
+    """Container independence of the validators themselves: every argument other than X (the labels y) must be rebound by
+    the same statements whether X is a 3-d array or a nested frame."""
+    for fname in ("check_X", "check_X_y"):
+        fn = repo.func(PANEL_VALIDATION, fname)
+        mod = repo.module(PANEL_VALIDATION)
+        sums = {c: an.summary(fn, mod, None, None, {"X": _fs(c)}) for c in (NP, PD)}
+        others = [p for p in astq.all_param_names(fn) if p != "X"]
+        diff = []
+        for p in others:
+            a, b = sums[NP].reach_assign.get(p, set()), sums[PD].reach_assign.get(p, set())
+            if a != b:
+                diff.append((p, sorted(a ^ b)))
+        loc = ctx.loc(mod, fn)
+        if diff:
+            p, lines = diff[0]
+            ctx.violation("R5", "%s:%s" % (fname, p), "argument %s is rebound at line %s only when X is a %s: the validator treats %s "
+                          "differently for the two containers of the same data (e.g. label-based re-ordering for a nested frame, "
+                          "positional pairing for the 3-d array)" % (
+                              p, lines[0][0], "nested DataFrame" if lines[0] in sums[PD].reach_assign.get(p, set()) else "3-d array", p),
+                          "%s:%s" % (mod.relpath, lines[0][0]), witness={"input": "nested X with permuted index and a Series y"})
+        else:
+            ctx.ok("R5", "%s:arguments" % fname, "arguments other than X (%s) are rebound by the same statements for both containers"
+                   % ", ".join(others), loc)
